@@ -277,6 +277,16 @@ func (r *Run) Count(hist, bucket string) {
 	h[bucket]++
 }
 
+// CountN adds n to a histogram bucket.
+func (r *Run) CountN(hist, bucket string, n int) {
+	h, ok := r.Rep.Distribution[hist].(map[string]int)
+	if !ok {
+		h = map[string]int{}
+		r.Rep.Distribution[hist] = h
+	}
+	h[bucket] += n
+}
+
 const shardSize = 64
 
 // Finish writes cases_<k>.v shards, cases.json and impl.json into Env.Out.
